@@ -837,6 +837,7 @@ class BackendZ3(Backend):
             # Load the existing Z3 solver for this thread
             s = self._tls.solver
             s.reset()
+            s.__dict__.pop("_claripy_tracked", None)
 
         # Configure timeouts
         if timeout is not None:
@@ -868,11 +869,27 @@ class BackendZ3(Backend):
     def add(self, s, c, track=False):
         converted = self.convert_list(c)
         if track:
+            # remember, per solver object, which constraint each tracking name stands for: the Z3 term alone does not
+            # identify it (constraints that differ only in annotations translate to the same term)
+            tracked = s.__dict__.setdefault("_claripy_tracked", {})
             for a, nice_ast in zip(c, converted, strict=False):
                 ast = nice_ast.ast
                 h = self._z3_ast_hash(ast)
                 self._ast_cache[h] = (a, ast)
+                tracked.setdefault(str(hash(nice_ast)), a)
         return self._add(s, converted, track=track)
+
+    def unsat_core(self, s):
+        tracked = getattr(s, "_claripy_tracked", {})
+        cores = s.unsat_core()
+        result = []
+        for impl in s.assertions():
+            name, body = impl.children()
+            # Z3 may report a tracked assertion that is a literal by the literal itself instead of its tracking name
+            if name in cores or body in cores:
+                constraint = tracked.get(str(name))
+                result.append(constraint if constraint is not None else self._abstract(body))
+        return result
 
     def _unsat_core(self, s):
         cores = s.unsat_core()
